@@ -275,6 +275,8 @@ impl Recorder
         if let Some(m) = &o.inconclusive
         {
             g.inconclusive.push(m.clone());
+            // a hang suspect / watchdog hit: end the run soon, the verdict is "inconclusive" anyway
+            self.stop.store(true, Ordering::Relaxed);
         }
         let mut unknown = Vec::new();
         for d in &o.deviations
@@ -588,6 +590,8 @@ pub fn pbt_opts<C>(
                 let mut runner = TestRunner::new_with_rng(config, rng_for(env.seed, &env.prop, part, w as u64));
                 let failed_once = AtomicBool::new(false);
                 let harness_err: Mutex<Option<String>> = Mutex::new(None);
+                // what the FIRST failing case looked like (kept for the report when shrinking ends in a case that passes on re-run)
+                let first_failure: Mutex<Option<(String, Vec<Deviation>)>> = Mutex::new(None);
                 let result = runner.run(&strat, |case: C| {
                     if rec.stop.load(Ordering::Relaxed) && !failed_once.load(Ordering::Relaxed)
                     {
@@ -636,6 +640,7 @@ pub fn pbt_opts<C>(
                     {
                         failed_once.store(true, Ordering::Relaxed);
                         rec.stop.store(true, Ordering::Relaxed);
+                        *first_failure.lock().unwrap() = Some((serde_json::to_string(&case).unwrap_or_default(), unknown.clone()));
                         Err(TestCaseError::fail(unknown[0].signature.clone()))
                     }
                 });
@@ -661,7 +666,17 @@ pub fn pbt_opts<C>(
                             .collect();
                         let devs = if unknown.is_empty()
                         {
-                            vec![dev("flaky", "the shrunk case did not fail again when re-run".to_string())]
+                            let ff = first_failure.lock().unwrap().clone();
+                            let orig = ff
+                                .map(|(c, d)| {
+                                    format!(
+                                        "; the first failing case reported {} on case {}",
+                                        d.iter().map(|x| format!("[{}] {}", x.signature, truncate(&x.message, 1500))).collect::<Vec<_>>().join(" | "),
+                                        truncate(&c, 2500)
+                                    )
+                                })
+                                .unwrap_or_default();
+                            vec![dev("flaky", format!("the shrunk case did not fail again when re-run{}", orig))]
                         }
                         else
                         {
